@@ -95,6 +95,12 @@ CLIP_TOL = 1e-3
 GUESS_ALL_MAX = 120
 VERTEX_DX = (-0.37, -1.93, 0.41)   # x offsets of the vertex-aligned points, in units of the shortest adjacent column's longest side
 CASE_LIMIT = 20.0          # seconds per library call; backstop only (a call takes milliseconds on the unchanged tree)
+# history dimension: the same geometry object is queried, transformed in place and queried again
+HIST = {'A': [('rotate', 30.0), ('translate', (123.4, -56.7, 7.5)), ('rotate', -75.0)],
+        'B': [('translate', (-1000.25, 2000.5, -3.0)), ('rotate', 90.0)]}
+HGEOS = {'quick': [('rect', 2), ('g7', 10)], 'thorough': [('rect', 2), ('g7', 10), ('g5', 16)]}   # (geometry, parts)
+NLINE_H = 5                # line lattice of a history pass
+HSTEP = 2                  # a history pass uses every HSTEP-th row and column of the 41x41 point lattice
 MAX_TIMEOUTS = 2           # a work unit stops exploring after this many timeouts (reported; evidence then says cap_hit)
 
 
@@ -158,11 +164,16 @@ def _library_geometry(name):
 class Ctx(object):
     """One geometry: the library object, the reference mesh, the lattices and the search aids."""
 
-    def __init__(self, name, nline):
+    def __init__(self, name, nline, geo=None):
+        """geo given: describe THAT library object as it is now (history units: the same object is queried,
+        transformed in place and described again from its transformed node coordinates)."""
         import numpy as np
         self.np = np
         self.name = name
-        geo, old = _library_geometry(name)
+        if geo is None:
+            geo, old = _library_geometry(name)
+        else:
+            old = None
         self.geo = geo
         cols = list(geo.columnlist)
         polys = dict((id(c), [(float(n.pos[0]), float(n.pos[1])) for n in c.node]) for c in cols)
@@ -357,6 +368,10 @@ def units(tier):
         nl = nline * nline
         for ch in core.chunks(range(nl), 16 if big else 6):
             us.append(('L', g, ch[0], ch[-1] + 1))
+    for g, nparts in HGEOS[tier]:
+        for seq in sorted(HIST):
+            for part in range(nparts):
+                us.append(('H' + seq, g, part, nparts))
     return us
 
 
@@ -737,11 +752,11 @@ def line_case(ctx, A, B):
     return viol, ('track-ok' if not out else 'track-differs') + (':empty' if not ref else ''), bool(ref)
 
 
-def do_lines(ctx, lo, hi, tier, rec):
+def do_lines(ctx, lo, hi, tier, rec, starts=None):
     n = ctx.nline
     pts = [(ctx.lx[i], ctx.ly[j]) for j in range(n) for i in range(n)]
     info = [ctx.mesh.locate(p) for p in pts]
-    for ia in range(lo, hi):
+    for ia in (range(lo, hi) if starts is None else starts):
         for ib in range(len(pts)):
             if ia == ib:
                 continue
@@ -771,6 +786,82 @@ class UnitAborted(Exception):
     pass
 
 
+class RecTag(object):
+    """Recorder view of one stage of a history: keys, counters and signatures carry the stage, the case carries what
+    is needed to re-create the state (sequence, stage, part)."""
+
+    def __init__(self, rec, seq, stage, after, part, nparts):
+        self.rec, self.seq, self.stage, self.after, self.part, self.nparts = rec, seq, stage, after, part, nparts
+        self.counters = rec.counters
+        self.notes = rec.notes
+
+    def case(self, key, nontrivial=True, outcome=None):
+        self.rec.case(('H', self.seq, self.stage, key), nontrivial=nontrivial,
+                      outcome=None if outcome is None else 'history-' + outcome)
+
+    def count(self, name, n=1):
+        self.rec.count(name if name in ('timeouts', 'cap_hit') else 'history:' + name, n)
+
+    def sample(self, obj, force=False):
+        self.rec.sample(obj, force)
+
+    def violation(self, sig, what, case):
+        case = dict(case)
+        case['hist'] = {'seq': self.seq, 'stage': self.stage, 'part': self.part, 'nparts': self.nparts}
+        self.rec.violation(sig + '|after=' + self.after, 'after %s on the same geometry object: %s' % (self.after, what), case)
+
+
+def apply_step(geo, step):
+    with quiet():
+        if step[0] == 'rotate':
+            geo.rotate(step[1])
+        else:
+            geo.translate(list(step[1]))
+
+
+def after_tag(seq, stage):
+    return '+'.join(['query'] + [st[0] for st in HIST[seq][:stage]])
+
+
+def history_pass(ctx, part, nparts, tier, rec):
+    """One query pass on the object as it is now: points x every single aid (quadtrees freshly built for this
+    stage), 3-D points, lines - this unit's share (every nparts-th item)."""
+    k = 0
+    for j in range(0, NP, HSTEP):
+        for i in range(0, NP, HSTEP):
+            if k % nparts == part:
+                do_point(ctx, ('G', i, j), (ctx.gx[i], ctx.gy[j]), tier, rec, pairs=False, all_guesses=False,
+                         tag='points')
+            k += 1
+    for ci in range(ctx.n):
+        if ci % nparts != part:
+            continue
+        if ctx.n <= 20:
+            for a in range(NLOC):
+                for b in range(NLOC):
+                    do_point(ctx, ('C', ctx.labels[ci], a, b), (ctx.loc[ci][0][a], ctx.loc[ci][1][b]), tier, rec,
+                             pairs=False, all_guesses=False, tag='points')
+        do_blocks(ctx, ci, tier, rec)
+    do_lines(ctx, 0, 0, tier, rec, starts=[ia for ia in range(ctx.nline * ctx.nline) if ia % nparts == part])
+
+
+def run_history(g, seq, part, nparts, tier, rec, stop_at=None):
+    """query pass -> transform in place -> query pass -> ... on ONE library object; the exact reference is recomputed
+    from the transformed node coordinates at every stage.  stop_at: return the context of that stage without running
+    its pass (replay)."""
+    geo, _ = _library_geometry(g)
+    steps = HIST[seq]
+    for stage in range(len(steps) + 1):
+        ctx = Ctx(g, NLINE_H, geo=geo)
+        if stop_at == stage:
+            return ctx
+        rec.count('geometry:%s@%s%d:%s:columns=%d' % (g, seq, stage, ctx.digest, ctx.n), 1)
+        history_pass(ctx, part, nparts, tier, RecTag(rec, seq, stage, after_tag(seq, stage), part, nparts))
+        if stage < len(steps):
+            apply_step(geo, steps[stage])
+    return None
+
+
 def note_timeout(rec):
     rec.count('timeouts')
     if rec.counters['timeouts'] >= MAX_TIMEOUTS:
@@ -788,6 +879,11 @@ def run_unit(unit, tier, rec):
 def _run_unit(unit, tier, rec):
     core.load_library()
     kind, g, lo, hi = unit
+    if kind[0] == 'H':
+        run_history(g, kind[1:], lo, hi, tier, rec)
+        if lo == 0:
+            rec.sample({'history': g, 'sequence': ['query'] + [list(st) for st in HIST[kind[1:]]], 'parts': hi}, force=True)
+        return
     ctx = ctx_for(g, tier)
     rec.count('geometry:%s:%s:columns=%d' % (g, ctx.digest, ctx.n), 1)
     if kind == 'P':
@@ -838,7 +934,17 @@ def finalize(rec, tier):
 def replay(case):
     core.load_library()
     tier = case.get('tier', 'thorough')
-    ctx = ctx_for(case['geo'], tier)
+    h = case.get('hist')
+    if h:
+        # re-create the state: the same passes and transforms on a fresh object, then this one case
+        ctx = run_history(case['geo'], h['seq'], h['part'], h['nparts'], tier, core.Rec(), stop_at=h['stage'])
+        c2 = dict(case)
+        del c2['hist']
+        return [(sig + '|after=' + after_tag(h['seq'], h['stage']), what) for sig, what in _replay_on(ctx, c2)]
+    return _replay_on(ctx_for(case['geo'], tier), case)
+
+
+def _replay_on(ctx, case):
     if case['kind'] == 'point':
         p = (float(case['p'][0]), float(case['p'][1]))
         ctx.frame.grow(p)
